@@ -33,6 +33,30 @@ def expected_sequence(structure, find_gaps):
     return out, nts
 
 
+def with_icode_twins(structure, rng):
+    """the same structure as a PDB-style one (no label identity) in which a few residues are renumbered to the number of
+    their predecessor plus an insertion code (N, N^A, N^B ...): identities then differ in the insertion code only"""
+    from rnapolis.common import ResidueAuth
+    from gen import structures as G
+    n = len(structure.residues)
+    picks = set(rng.sample(range(1, n), min(n - 1, rng.randint(1, 4)))) if n > 1 else set()
+    state = {"k": -1, "prev": None, "code": 0}
+
+    def ident(label, auth):
+        state["k"] += 1
+        if auth is None:
+            return label, auth
+        if state["k"] in picks and state["prev"] is not None and state["prev"].chain == auth.chain:
+            state["code"] += 1
+            new = ResidueAuth(auth.chain, state["prev"].number, "ABCDEFGH"[(state["code"] - 1) % 8], auth.name)
+        else:
+            state["code"] = 0
+            new = ResidueAuth(auth.chain, auth.number, auth.icode, auth.name)
+            state["prev"] = new
+        return None, new
+    return G.rebuild(structure, ident_fn=ident)
+
+
 def make_pairs(structure, rng):
     """random list of (i, j, lw) over nucleotide indices with duplicates, reversals, multiplets and dangling entries"""
     nts = [r for r in structure.residues if r.is_nucleotide]
@@ -70,6 +94,8 @@ def check_case(case):
     path, seed, find_gaps, with_saenger = case
     rng = random.Random(seed)
     s = G.load(path)
+    if rng.random() < 0.5:
+        s = with_icode_twins(s, rng)
     nts, entries = make_pairs(s, rng)
     if not entries:
         return []
